@@ -79,11 +79,70 @@ def live_tables(facts):
 
 # ------------------------------------------------------------------ SDK side
 
+CTOR_MODES = ["list", "default-append", "default-extend", "none-append", "empty-list-append"]
+
+
+def new_mux(mode, stores, fill=True):
+    """an ObjectProviderMultiplexer over the stores, constructed in one of the documented ways: with the list, or
+    without an argument / with None / with an empty list and filled afterwards through its public `providers` list"""
+    from basyx.aas import model
+    if mode == "list":
+        return model.ObjectProviderMultiplexer(list(stores) if fill else [])
+    if mode == "none-append":
+        m = model.ObjectProviderMultiplexer(None)
+    elif mode == "empty-list-append":
+        m = model.ObjectProviderMultiplexer([])
+    else:
+        m = model.ObjectProviderMultiplexer()
+    if fill:
+        fill_mux(mode, m, stores)
+    return m
+
+
+def fill_mux(mode, m, stores):
+    if mode == "default-extend" or mode == "list":
+        m.providers.extend(stores)
+    else:
+        for s in stores:
+            m.providers.append(s)
+
+
+def check_providers(P):
+    """oracle for the provider clause alone: each provider of the case (ours, and the bystander's multiplexer) lists
+    exactly the stores it was given and answers get_identifiable for every id in play with the object ITS first store
+    holding that id holds, and with KeyError for every other id - whatever else lives in the process"""
+    fails = []
+    sides = [("provider", P.provider, P.aprov, P.stores, P.mux)]
+    if P.provider is not P.mux:
+        sides.append(("multiplexer", P.mux, P.aprov, P.stores, P.mux))
+    if P.bystander_mux is not None:
+        sides.append(("bystander", P.bystander_mux, P.bystander, P.bystander_stores, P.bystander_mux))
+    ids = sorted({t["id"] for s in P.aprov for t in s} | {t["id"] for s in P.bystander for t in s} | {"urn:zz"})
+    for name, prov, ap, stores, mux in sides:
+        if [id(x) for x in mux.providers] != [id(x) for x in stores]:
+            fails.append((f"C07:provider:{name}:providers-differ",
+                          f"the multiplexer of the {name} lists {len(mux.providers)} providers; it was given {len(stores)}"))
+        for i in ids:
+            fh = first_hit(ap, i)
+            try:
+                got = prov.get_identifiable(i)
+            except Exception as e:
+                got = e
+            if fh is None:
+                if not (isinstance(got, KeyError) and type(got) is KeyError):
+                    fails.append((f"C07:provider:{name}:get_identifiable:expected-KeyError",
+                                  f"get_identifiable({i!r}) gave {got!r}; none of the stores given to it holds that id"))
+            elif got is not ap[fh[0]][fh[1]]["_o"]:
+                fails.append((f"C07:provider:{name}:get_identifiable:not-the-held-object",
+                              f"get_identifiable({i!r}) gave {got!r} instead of the object held by its store {fh[0]}"))
+    return fails
+
+
 class Prov:
     """The live SDK objects of an abstract provider.  self.aprov is a private deep copy of the abstract provider whose
     nodes carry their SDK object as node["_o"]; mutations are applied to both sides (apply_mutation), so the abstract
     side always describes the provider as it is at the time of a call."""
-    def __init__(self, aprov):
+    def __init__(self, aprov, world=None):
         import copy
         from basyx.aas import model
         self.aprov = copy.deepcopy(rt.clean(aprov))
@@ -91,9 +150,27 @@ class Prov:
         for s in self.aprov:
             roots = [rt.build(t, attach=True) for t in s]
             self.stores.append(model.DictObjectStore(roots))
-        self.mux = model.ObjectProviderMultiplexer(list(self.stores))
-        # a lone store is queried directly (not through the multiplexer)
-        self.provider = self.stores[0] if len(self.stores) == 1 else self.mux
+        # the "world" of a case: HOW the multiplexer is constructed and filled (CTOR_MODES), whether a lone store is
+        # queried through it, and a bystander: a second, independent provider (own stores, own multiplexer, constructed
+        # the same way before / after / interleaved with ours) that lives in the same process.  What our provider
+        # answers must depend on what it was given only (oracle: check_providers, and every query of the rounds).
+        w = world or {}
+        mode = w.get("ctor", "list")
+        self.bystander = copy.deepcopy(rt.clean(w.get("bystander") or []))
+        self.bystander_stores = [model.DictObjectStore([rt.build(t, attach=True) for t in s]) for s in self.bystander]
+        order = w.get("order", "before")
+        if order == "interleaved":
+            self.mux, self.bystander_mux = new_mux(mode, self.stores, fill=False), new_mux(mode, self.bystander_stores, fill=False)
+            fill_mux(mode, self.bystander_mux, self.bystander_stores)
+            fill_mux(mode, self.mux, self.stores)
+        elif order == "after":
+            self.mux = new_mux(mode, self.stores)
+            self.bystander_mux = new_mux(mode, self.bystander_stores)
+        else:
+            self.bystander_mux = new_mux(mode, self.bystander_stores) if world else None
+            self.mux = new_mux(mode, self.stores)
+        # a lone store is queried directly (not through the multiplexer) unless the world says otherwise
+        self.provider = self.stores[0] if len(self.stores) == 1 and not w.get("via_mux") else self.mux
         self.reindex()
 
     def reindex(self):
@@ -386,11 +463,11 @@ def oracle_walk(t, ids):
     return ("ok", p)
 
 
-def run_history(aprov0, rounds, facts):
+def run_history(aprov0, rounds, facts, world=None):
     """rounds: [{"mut": [mutation descriptors], "queries": [...]}]; the mutations of a round are applied to the
     live objects (and to the abstract side) before its queries.  Returns ([(abstract provider at that time,
     observations)], [(signature, message, round index)])."""
-    P = Prov(aprov0)
+    P = Prov(aprov0, world)
     out, fails = [], []
     for k, r in enumerate(rounds):
         for m in r["mut"]:
@@ -404,6 +481,8 @@ def run_history(aprov0, rounds, facts):
             for msg in P.verify():
                 fails.append(("C07:mutation:container-differs", msg, k))
         obs, f = run_round(P, r["queries"], facts)
+        if world:
+            f = check_providers(P) + f
         out.append((rt.clean(P.aprov), obs))
         tag = "" if k == 0 else "after-mutation:"
         fails += [(sig.replace("C07:", "C07:" + tag, 1), msg, k) for sig, msg in f]
@@ -741,6 +820,14 @@ def equivalence_oracle(count):
     kinds, eq => equal hash, and a set / dict finds every member through an equal but distinct object."""
     from basyx.aas import model
     fails = []
+    pools = equivalence_pools()
+    return _equivalence_checks(pools, fails, count)
+
+
+def equivalence_pools():
+    """the hand-built pools of equivalence_oracle (deterministic; also built by the worker interpreter of
+    foreign_value_oracle)"""
+    from basyx.aas import model
     KT = list(model.KeyTypes)
     vals = ["a", "b", "0"]
     keys = [model.Key(t, v) for t in KT for v in vals]
@@ -794,7 +881,13 @@ def equivalence_oracle(count):
                             continue
                         said.append(model.SpecificAssetId(nm, v, es, sm, sup))
     pools["SpecificAssetId"] = said
+    return pools
+
+
+def _equivalence_checks(pools, fails, count):
+    from basyx.aas import model
     import copy
+    import pickle
     for kind, pool in pools.items():
         n = len(pool)
         eq = [[(pool[i] == pool[j]) is True for j in range(n)] for i in range(n)]
@@ -831,6 +924,9 @@ def equivalence_oracle(count):
                 x.name, x.value, x.external_subject_id, x.semantic_id, tuple(x.supplemental_semantic_id))
             if not (x == y and hash(x) == hash(y)):
                 report(f"C07:value-object:{kind}:copy-not-equal", f"{x!r}")
+            z = pickle.loads(pickle.dumps(x))
+            if not (x == z and z == x and hash(x) == hash(z) and z in {x} and {x: 1}.get(z) == 1):
+                report(f"C07:value-object:{kind}:pickle-round-trip-not-equal", f"{x!r}")
     kinds = list(pools)
     for a in kinds:
         for b in kinds:
@@ -842,16 +938,112 @@ def equivalence_oracle(count):
     return fails
 
 
+FOREIGN_WORKER = r"""
+import pickle, random, sys
+import c07, reftrees as rt
+from basyx.aas import model
+pools = c07.equivalence_pools()
+aprov = c07.foreign_provider()
+roots = [rt.build(t, attach=True) for t in aprov[0]]
+refs = [[(p, model.ModelReference.from_referable(n["_o"])) for p, n, _ in rt.walk(t)] for t in aprov[0]]
+sys.stdout.buffer.write(pickle.dumps((pools, refs)))
+"""
+
+
+def foreign_provider():
+    """a fixed one-store provider (deterministic: own generator) built on both sides of foreign_value_oracle"""
+    import random
+    r = random.Random(7)
+    return [[rt.gen_root(r, 4, i) for i in rt.BASE_IDS[:4]]]
+
+
+def foreign_value_oracle(count):
+    """Values are values wherever they were built: a worker interpreter with ANOTHER str-hash seed (PYTHONHASHSEED)
+    builds the equivalence pools, a provider and the reference of every referable in it, and sends them by pickle
+    (what multiprocessing's spawn start method, joblib or a cache on disk do).  Here every received Key / Reference /
+    SpecificAssetId must equal the same value built locally, and then hash alike and be found in sets / dicts of local
+    values (and vice versa); every received reference must resolve to the very element at that position of the
+    same tree built here, and the reference rebuilt from that element must be the same value with the same hash."""
+    import pickle
+    import subprocess
+    import sys
+    from basyx.aas import model
+    fails, done = [], set()
+
+    def report(sig, msg):
+        if sig not in done:
+            done.add(sig)
+            fails.append((sig, msg))
+    env = dict(os.environ)
+    env["PYTHONHASHSEED"] = "4242" if env.get("PYTHONHASHSEED") != "4242" else "4243"
+    pr = subprocess.run([sys.executable, "-c", FOREIGN_WORKER], env=env, stdout=subprocess.PIPE, stderr=subprocess.PIPE)
+    if pr.returncode != 0:
+        return [("C07:value-object:foreign:worker-failed", pr.stderr.decode(errors="replace")[-600:])]
+    try:
+        pools_f, refs_f = pickle.loads(pr.stdout)
+    except Exception as e:
+        return [("C07:value-object:foreign:unpickle-raises", f"{type(e).__name__}: {e}")]
+    pools = equivalence_pools()
+    for kind, pool in pools.items():
+        got = pools_f.get(kind, [])
+        count(f"foreign-pool {kind}", len(got))
+        if len(got) != len(pool):
+            report(f"C07:value-object:foreign:{kind}:pool-differs", f"{len(got)} values received, {len(pool)} built here")
+            continue
+        index = {}
+        for j, y in enumerate(pool):
+            index.setdefault(y, j)
+        local_set = set(pool)
+        for x, y in zip(got, pool):
+            what = f"{x!r} built by another interpreter and {y!r} built here"
+            if not (x == y and y == x):
+                report(f"C07:value-object:foreign:{kind}:not-equal", what + " differ")
+                continue
+            if hash(x) != hash(y):
+                report(f"C07:value-object:foreign:{kind}:eq-but-hash-differs", what + " are equal but hash differently")
+            j = index.get(x)
+            if x not in local_set or j is None or not pool[j] == x or y not in {x} or {x: 1}.get(y) != 1:
+                report(f"C07:value-object:foreign:{kind}:equal-object-not-found-in-set-or-dict", what)
+    # the provider itself is built here (LangStringSets, hence whole trees, do not pickle): a reference is a value and
+    # addresses the same position in an equal tree held by any provider
+    aprov = foreign_provider()
+    store = model.DictObjectStore([rt.build(t, attach=True) for t in aprov[0]])
+    for ri, t in enumerate(aprov[0]):
+        count("foreign-references", len(refs_f[ri]) if ri < len(refs_f) else 0)
+        for (p, n, _), (pf, ref) in zip(rt.walk(t), refs_f[ri] if ri < len(refs_f) else []):
+            local = model.ModelReference.from_referable(n["_o"])
+            if not (ref == local and list(pf) == list(p)):
+                report("C07:value-object:foreign:reference:not-equal", f"{ref!r} received, {local!r} built here for position {p}")
+                continue
+            if hash(ref) != hash(local) or ref not in {local} or {local: 1}.get(ref) != 1:
+                report("C07:value-object:foreign:reference:eq-but-hash-differs",
+                       f"{ref!r} built by another interpreter equals the reference built here but hashes differently")
+            try:
+                target = ref.resolve(store)
+                if target is not n["_o"]:
+                    report("C07:value-object:foreign:reference:resolve-not-identical", f"{ref!r} resolved to {target!r}")
+                rebuilt = model.ModelReference.from_referable(target)
+                if not rebuilt == ref:
+                    report("C07:value-object:foreign:reference:rebuilt-differs", f"{ref!r} vs {rebuilt!r}")
+                elif hash(rebuilt) != hash(ref) or {rebuilt: 1}.get(ref) != 1:
+                    report("C07:value-object:foreign:reference:rebuilt-eq-but-hash-differs",
+                           f"{ref!r} (received) == from_referable(element it resolves to), but a dict keyed by the latter "
+                           f"does not find the former")
+            except Exception as e:
+                report(f"C07:value-object:foreign:reference:raises-{type(e).__name__}", f"{ref!r}: {e}")
+    return fails
+
+
 # ------------------------------------------------------------------ driver
 
-def shrink_history(aprov, rounds, facts, sig, k):
+def shrink_history(aprov, rounds, facts, sig, k, world=None):
     """keep the rounds up to the failing one; one query in the failing round; drop earlier queries and single
     mutations as long as the same signature still fails"""
     import copy
 
     def failing(rs):
         try:
-            return any(s == sig for s, _, _ in run_history(aprov, rs, facts)[1])
+            return any(s == sig for s, _, _ in run_history(aprov, rs, facts, world)[1])
         except Exception:
             return False
     rs = copy.deepcopy([{"mut": r["mut"], "queries": list(r["queries"])} for r in rounds[:k + 1]])
@@ -940,7 +1132,8 @@ def run(chk):
         for fn in sorted(os.listdir(corpus)):
             c = json.load(open(os.path.join(corpus, fn)))
             rounds = c.get("rounds") or [{"mut": [], "queries": c["queries"]}]
-            cases.append((c["prov"], [{"mut": r["mut"], "queries": [tuple(q) for q in r["queries"]]} for r in rounds]))
+            cases.append((c["prov"], [{"mut": r["mut"], "queries": [tuple(q) for q in r["queries"]]} for r in rounds],
+                          c.get("world")))
     for _ in range(ncases):
         nstores = rng.choice([1, 1, 2, 3])
         d = rng.randint(2, depth)
@@ -958,11 +1151,19 @@ def run(chk):
                                     "from-only-reversed"])
                 rounds.append({"mut": muts, "queries": gen_queries(rng, cur, facts, max(1, per_node - 1), chk.count,
                                                                    order, lambda n: id(n) in old)})
-        cases.append((aprov, rounds))
-    for ci, (aprov, rounds) in enumerate(cases):
-        out, fails = run_history(aprov, rounds, facts)
+        # the world of the case (see Prov): in half of the cases the multiplexer is constructed in another of the
+        # documented ways and a bystander provider of the same making lives next to ours
+        world = None
+        if rng.random() < 0.5:
+            world = {"ctor": rng.choice(CTOR_MODES), "via_mux": rng.random() < .7,
+                     "order": rng.choice(["before", "after", "interleaved"]),
+                     "bystander": rt.gen_provider(rng, 2, rng.choice([1, 1, 2]))}
+        cases.append((aprov, rounds, world))
+    for ci, (aprov, rounds, world) in enumerate(cases):
+        out, fails = run_history(aprov, rounds, facts, world)
         nn = sum(rt.size(t) for s in aprov for t in s)
-        chk.seen((aprov, rounds), nontrivial=nn >= 3)
+        chk.seen((aprov, rounds, world), nontrivial=nn >= 3)
+        chk.count(f"multiplexer-ctor={world['ctor'] if world else 'list (no bystander)'}")
         chk.count(f"stores={len(aprov)}")
         chk.count(f"rounds={len(rounds)}")
         chk.count(f"nodes={'1-5' if nn <= 5 else '6-15' if nn <= 15 else '16-40' if nn <= 40 else '>40'}")
@@ -981,10 +1182,11 @@ def run(chk):
             seen_sigs.add(sig)
             # shrinking re-runs the history many times: do it for the first few signatures of a run only
             chk._n_shrunk = getattr(chk, "_n_shrunk", 0) + 1
-            small = shrink_history(aprov, rounds, facts, sig, k) if chk._n_shrunk <= 8 else rounds[:k + 1]
-            chk.fail(sig, msg, {"prov": aprov, "rounds": small,
-                                "how": "tools/c07.py run_history(prov, rounds, facts): the mutations of a round are applied "
-                                       "to the live objects before its queries"})
+            small = shrink_history(aprov, rounds, facts, sig, k, world) if chk._n_shrunk <= 8 else rounds[:k + 1]
+            chk.fail(sig, msg, {"prov": aprov, "rounds": small, "world": world,
+                                "how": "tools/c07.py run_history(prov, rounds, facts, world): the provider (and the "
+                                       "bystander provider of the world, if any) is constructed as the world says; the "
+                                       "mutations of a round are applied to the live objects before its queries"})
         if len(chk.samples) < 3 and nn >= 6 and len(rounds) > 1:
             chk.samples.append({"provider": aprov, "mutations_before_round_2": rounds[1]["mut"],
                                 "first_queries": rounds[0]["queries"][:3], "sdk_observations": out[0][1][:3]})
@@ -994,20 +1196,25 @@ def run(chk):
         chk.fail(sig, msg, {"how": "tools/c07.py value_object_oracle(random.Random(seed), n, count)"})
     for sig, msg in equivalence_oracle(chk.count):
         chk.fail(sig, msg, {"how": "tools/c07.py equivalence_oracle(lambda *a: None)", "kind": "equivalence"})
+    for sig, msg in foreign_value_oracle(chk.count):
+        chk.fail(sig, msg, {"how": "tools/c07.py foreign_value_oracle(lambda *a: None): the equivalence pools and the "
+                                   "references of a fixed provider are built by a worker interpreter with another "
+                                   "PYTHONHASHSEED, arrive by pickle and are compared with the same values built here",
+                            "kind": "foreign-values"})
     bad, errs = common.run_mismatch_shards("C07", PRELUDE, terms, "check_case", shard=max(8, len(terms) // 32 + 1), jobs=16)
     n1 = common.run_mismatch_shards.evaluated
     bad2, errs2 = common.run_mismatch_shards("C07int", PRELUDE, int_terms, "check_int", shard=4000)
     bad3, errs3 = common.run_mismatch_shards("C07str", PRELUDE, str_terms, "check_str", shard=4000)
     chk.traces = n1 - len(bad)
-    chk.cov["queries_compared"] = sum(len(r["queries"]) for _, rs in cases for r in rs)
+    chk.cov["queries_compared"] = sum(len(r["queries"]) for _, rs, _ in cases for r in rs)
     chk.cov["rounds_compared"] = len(terms)
     chk.cov["int_str_literals_compared"] = len(int_terms) + len(str_terms)
     for e in errs + errs2 + errs3:
         chk.tie_broken("correspondence-run", e)
     if bad:
         ci, k = origin[bad[0]]
-        aprov, rounds = cases[ci]
-        out, _ = run_history(aprov, rounds, facts)
+        aprov, rounds, world = cases[ci]
+        out, _ = run_history(aprov, rounds, facts, world)
         ap_k, obs = out[k]
         queries = rounds[k]["queries"]
         first = None
@@ -1019,7 +1226,7 @@ def run(chk):
         if first:
             prov = coq_list(coq_list(rt.coq_tree(t, cls_index) for t in s) for s in ap_k)
             model = common.coq_eval("C07", PRELUDE, f"obs {prov} ({coq_query(first[0])})")
-        chk.tie_broken("correspondence", {"n_disagreements": len(bad), "initial_prov": aprov,
+        chk.tie_broken("correspondence", {"n_disagreements": len(bad), "initial_prov": aprov, "world": world,
                                           "mutations_so_far": [r["mut"] for r in rounds[:k + 1]], "round": k,
                                           "prov_at_that_time": ap_k, "query": first and first[0],
                                           "sdk_observation": first and first[1], "model_observation": model})
@@ -1058,12 +1265,22 @@ def finish(chk):
                            "moved), the referables queried again and the model evaluated on the provider as it is then; the ORDER of "
                            "the targets within a round is part of the case (pre-order, reversed, random permutation, elements "
                            "that existed before the mutation first, a single target, from_referable only in reverse); "
-                           "non-trivial = provider with >= 3 nodes; distinct by (provider, queries)")
+                           "in half of the cases the multiplexer is constructed in another documented way (no argument / None / "
+                           "empty list, filled through .providers afterwards), a lone store is queried through it, and a "
+                           "bystander provider of the same making (ids overlapping ours) is constructed before / after / "
+                           "interleaved with ours in the same process: each provider must list exactly its stores and answer "
+                           "get_identifiable for every id in play from its own stores only; value objects additionally built "
+                           "by a worker interpreter with another PYTHONHASHSEED and received by pickle; "
+                           "non-trivial = provider with >= 3 nodes; distinct by (provider, queries, world)")
 
 
 def replay(path):
     r = json.load(open(path))
     rp = r.get("replay") or {}
+    if rp.get("kind") == "foreign-values":
+        fails = foreign_value_oracle(lambda *a: None)
+        print("oracle:", fails[:6])
+        return 1 if fails else 0
     if rp.get("kind") == "equivalence" or "value_object_oracle" in str(rp.get("how", "")):
         import random
         fails = equivalence_oracle(lambda *a: None) + value_object_oracle(random.Random(0), 40, lambda *a: None)
@@ -1074,7 +1291,7 @@ def replay(path):
         facts = refkeys.facts()
         rounds = rp.get("rounds") or [{"mut": [], "queries": rp["queries"]}]
         rounds = [{"mut": r["mut"], "queries": [tuple(q) for q in r["queries"]]} for r in rounds]
-        out, fails = run_history(rp["prov"], rounds, facts)
+        out, fails = run_history(rp["prov"], rounds, facts, rp.get("world"))
         print("observations:", [o for _, o in out])
         print("oracle:", fails)
         return 1 if fails else 0
